@@ -85,8 +85,13 @@ pub fn complete(
                         next_state = ParseState::Opt((opt, 1));
                     };
                 } else if pos_allows_hyphen(current_cmd, pos_index) {
-                    (next_state, pos_index) =
-                        parse_positional(current_cmd, pos_index, is_escaped, current_state);
+                    match current_state {
+                        ParseState::Opt((opt, count)) => next_state = parse_opt_value(opt, count),
+                        _ => {
+                            (next_state, pos_index) =
+                                parse_positional(current_cmd, pos_index, is_escaped, current_state);
+                        }
+                    }
                 }
             }
         } else if let Some(short) = arg.to_short() {
@@ -96,8 +101,13 @@ pub fn complete(
                     next_state = ParseState::Opt((opt, 1));
                 }
             } else if pos_allows_hyphen(current_cmd, pos_index) {
-                (next_state, pos_index) =
-                    parse_positional(current_cmd, pos_index, is_escaped, current_state);
+                match current_state {
+                    ParseState::Opt((opt, count)) => next_state = parse_opt_value(opt, count),
+                    _ => {
+                        (next_state, pos_index) =
+                            parse_positional(current_cmd, pos_index, is_escaped, current_state);
+                    }
+                }
             }
         } else {
             match current_state {
